@@ -368,7 +368,7 @@ def _is_view_swap(st, tab):
     return False
 
 
-def run_block(block, env, rows, tab, pivot_var, obs_label='OBS'):
+def run_block(block, env, rows, tab, pivot_var, obs_label='OBS', closures=None, depth=0):
     """Interpret the index logic of a replacement block on row labels.  Returns the index at which a
     stabilizer phase was written (or None)."""
     phase_at = []
@@ -387,6 +387,22 @@ def run_block(block, env, rows, tab, pivot_var, obs_label='OBS'):
                 continue
             if isinstance(st, (ast.Continue, ast.Break, ast.Return)):
                 raise _Leave()          # a guard clause ends the work on this observable
+            if isinstance(st, ast.Expr) and isinstance(st.value, ast.Call) and isinstance(st.value.func, ast.Name) \
+                    and closures and st.value.func.id in closures and depth < 2:
+                # a local helper (e.g. swap_rows(a, b)): its body is interpreted with the arguments bound
+                fn = closures[st.value.func.id]
+                ps = [a.arg for a in fn.args.args]
+                if len(ps) != len(st.value.args) or st.value.keywords:
+                    raise BlockError('call %s' % norm(st.value))
+                try:
+                    vals = [ev(a, env) for a in st.value.args]
+                except Undecidable as e:
+                    raise BlockError('argument of %s: %s' % (norm(st.value), e))
+                env2 = dict(env)
+                env2.update(zip(ps, vals))
+                body = [b for b in fn.body if not (isinstance(b, ast.Expr) and isinstance(b.value, ast.Constant))]
+                phase_at.extend(run_block(body, env2, rows, tab, pivot_var, obs_label, closures, depth + 1))
+                continue
             if isinstance(st, (ast.Pass, ast.Assert, ast.Expr)):
                 continue
             if _is_view_swap(st, tab):
@@ -417,6 +433,17 @@ def run_block(block, env, rows, tab, pivot_var, obs_label='OBS'):
             if isinstance(st, ast.Assign) and len(st.targets) == 1:
                 t, v = st.targets[0], st.value
                 if isinstance(t, ast.Name):
+                    # a saved row: `tmp = tab[i].copy()` keeps the row as it is now, `tmp = tab[i]` is a view of slot i
+                    inner_v = v.func.value if isinstance(v, ast.Call) and isinstance(v.func, ast.Attribute) and v.func.attr in ('copy', 'clone') and not v.args else None
+                    src = inner_v if inner_v is not None else v
+                    if isinstance(src, ast.Subscript) and isinstance(src.value, ast.Name) and src.value.id == tab \
+                            and not isinstance(src.slice, (ast.Tuple, ast.Slice)):
+                        try:
+                            i_src = ev(src.slice, env)
+                            env[t.id] = ('row', rows[i_src]) if inner_v is not None else ('view', i_src)
+                            continue
+                        except (Undecidable, IndexError, TypeError):
+                            pass
                     try:
                         env[t.id] = ev(v, env)
                     except Undecidable:
@@ -433,6 +460,8 @@ def run_block(block, env, rows, tab, pivot_var, obs_label='OBS'):
                             raise BlockError('row index %s: %s' % (norm(t.slice), e))
                         if isinstance(v, ast.Subscript) and isinstance(v.value, ast.Name) and v.value.id == tab:
                             rows[ti] = rows[ev(v.slice, env)]
+                        elif isinstance(v, ast.Name) and isinstance(env.get(v.id), tuple) and env[v.id][0] in ('row', 'view'):
+                            rows[ti] = env[v.id][1] if env[v.id][0] == 'row' else rows[env[v.id][1]]
                         else:
                             rows[ti] = obs_label
                         continue
@@ -486,7 +515,8 @@ def check_block(run, f, k, rule='R9.block', tc_inline_extend=False, signed=True)
                             env[k.update_flag] = True
                         if k.extend_flag:
                             env[k.extend_flag] = standby
-                        phase_at = run_block(k.block, env, rows, tab, pv)
+                        closures = {n.name: n for n in ast.walk(f.node) if isinstance(n, ast.FunctionDef) and n is not f.node}
+                        phase_at = run_block(k.block, env, rows, tab, pv, closures=closures)
                         r_new = env.get('r', r)
                         why = _post(N, r, r_new, p, cls, rows, phase_at, signed)
                         if why:
